@@ -114,8 +114,8 @@ def _chunk(args):
         if not res['ok'] and findings:
             try:
                 f = attribute(driver, scn, res['vclass'], findings)
-            except RunTimeout:
-                f = None
+            except Exception:
+                f = None        # a neutraliser that cannot be applied attributes nothing
             if f is not None:
                 k = 'known:' + f['key']
                 agg['stats'][k] = agg['stats'].get(k, 0) + 1
